@@ -2,6 +2,8 @@ import Propka.Model.Energy
 import Propka.Proofs.Iterative
 import Propka.Gen.Cfg
 import Propka.Gen.Consts
+import Propka.Proofs.Angle
+import Propka.Props.C08
 import Mathlib.Data.Real.Basic
 import Mathlib.Tactic.Linarith
 import Mathlib.Tactic.Positivity
@@ -265,3 +267,63 @@ example : WellFormed ⟨280, 560, 0.25, -13, 0, 4, 10, 160, 30, 244.12, 6, 3, 0.
   constructor <;> norm_num
 
 end Propka.Energy
+
+/-! ## the angle factor of angular-dependent hydrogen bonds -/
+namespace Propka.Angle
+open Real
+/-- **The angle factor is a cosine**: for three atoms with `atom1 ≠ atom2 ≠ atom3` (the code divides by both distances)
+    the factor lies in [-1, 1]; the callers clamp negative values to 0, so what enters `hydrogen_bond_energy` lies in [0, 1]. -/
+theorem f_angle_range (p1 p2 p3 : P3 ℝ)
+    (h12 : 0 < (p1.x - p2.x) * (p1.x - p2.x) + (p1.y - p2.y) * (p1.y - p2.y) + (p1.z - p2.z) * (p1.z - p2.z))
+    (h23 : 0 < (p2.x - p3.x) * (p2.x - p3.x) + (p2.y - p3.y) * (p2.y - p3.y) + (p2.z - p3.z) * (p2.z - p3.z)) :
+    |(factors p1 p2 p3).2.1| ≤ 1 := by
+  unfold factors
+  simp only [Trig.sqrt]
+  exact unit_dot_le _ _ _ _ _ _ h12 h23
+
+/-- the two distances returned are the Euclidean distances -/
+theorem dists (p1 p2 p3 : P3 ℝ) :
+    (factors p1 p2 p3).1 = √((p1.x - p2.x) * (p1.x - p2.x) + (p1.y - p2.y) * (p1.y - p2.y) + (p1.z - p2.z) * (p1.z - p2.z)) ∧
+    (factors p1 p2 p3).2.2 = √((p2.x - p3.x) * (p2.x - p3.x) + (p2.y - p3.y) * (p2.y - p3.y) + (p2.z - p3.z) * (p2.z - p3.z)) := ⟨rfl, rfl⟩
+
+/-- collinear donor geometry gives the full factor: atom1 on the ray from atom3 through atom2 -/
+example : (factors (⟨2, 0, 0⟩ : P3 ℝ) ⟨1, 0, 0⟩ ⟨0, 0, 0⟩).2.1 = 1 := by
+  unfold factors; norm_num [Trig.sqrt]
+
+/-- with the factor derived from three distinct atom positions a hydrogen-bond energy never exceeds `|dpka_max|` -/
+theorem hbond_geometric_bound (p1 p2 p3 : P3 ℝ) (dist dmax c1 c2 : ℝ) (hc : c1 < c2)
+    (h12 : 0 < (p1.x - p2.x) * (p1.x - p2.x) + (p1.y - p2.y) * (p1.y - p2.y) + (p1.z - p2.z) * (p1.z - p2.z))
+    (h23 : 0 < (p2.x - p3.x) * (p2.x - p3.x) + (p2.y - p3.y) * (p2.y - p3.y) + (p2.z - p3.z) * (p2.z - p3.z)) :
+    Propka.Energy.hbondEnergy dist dmax c1 c2 (factors p1 p2 p3).2.1 ≤ |dmax| := by
+  have h := (Propka.Energy.hbond_range dist dmax c1 c2 (factors p1 p2 p3).2.1 hc).2
+  have hf := f_angle_range p1 p2 p3 h12 h23
+  nlinarith [abs_nonneg dmax, abs_nonneg (factors p1 p2 p3).2.1]
+end Propka.Angle
+
+/-! ## reported averages stay in range -/
+namespace Propka.Dets
+theorem sum_bounds (xs : List ℚ) (a b : ℚ) (h : ∀ x ∈ xs, a ≤ x ∧ x ≤ b) :
+    a * xs.length ≤ xs.sum ∧ xs.sum ≤ b * xs.length := by
+  induction xs with
+  | nil => simp
+  | cons x xs ih =>
+    have hx := h x (List.mem_cons_self ..)
+    have := ih (fun y hy => h y (List.mem_cons_of_mem _ hy))
+    simp only [List.sum_cons, List.length_cons, Nat.cast_add, Nat.cast_one]
+    constructor <;> nlinarith [this.1, this.2, hx.1, hx.2]
+
+/-- **Averages stay in range**: if a quantity lies in `[a, b]` in every conformation that contains the group (a buried
+    fraction in [0, 1], a desolvation penalty of fixed sign), so does the value reported for the average. -/
+theorem average_in_range (xs : List ℚ) (hne : xs ≠ []) (a b : ℚ) (h : ∀ x ∈ xs, a ≤ x ∧ x ≤ b) :
+    a ≤ avgScalar 0 xs ∧ avgScalar 0 xs ≤ b := by
+  rw [scalar_average_is_mean]
+  have hpos : (0 : ℚ) < xs.length := by
+    have : 0 < xs.length := List.length_pos_iff.mpr hne
+    exact_mod_cast this
+  obtain ⟨h1, h2⟩ := sum_bounds xs a b h
+  constructor
+  · rw [le_div_iff₀ hpos]; exact h1
+  · rw [div_le_iff₀ hpos]; exact h2
+
+example : avgScalar (0 : ℚ) [1, 1/2] = 3/4 := by unfold avgScalar; norm_num
+end Propka.Dets
